@@ -50,23 +50,34 @@ ConsInit == [open |-> TRUE, closed |-> FALSE, q |-> <<>>, fl |-> <<>>, wire |-> 
 (* Framing grammar on sequences of parts.                                                          *)
 PayloadKinds == {"tag", "flvh", "ts", "empty"}
 SelfKinds(w) == IF w THEN {"http", "wsf"} ELSE {"http", "msg", "tag", "flvh", "ts", "empty"}
-RECURSIVE Whole(_, _)
-Whole(s, w) ==
+\* A "piece" is the i-th of `of` consecutive elements that only together are the unit (uk, id, len).
+\* tail: the sequence may end inside a unit (a connection that was cut while the unit was under way).
+RECURSIVE WholeT(_, _, _)
+WholeT(s, w, tail) ==
   IF s = <<>> THEN TRUE
-  ELSE IF s[1].k \in SelfKinds(w) THEN Whole(Tail(s), w)
+  ELSE IF s[1].k \in SelfKinds(w) THEN WholeT(Tail(s), w, tail)
   ELSE IF w /\ s[1].k = "wsh"
-         THEN Len(s) >= 2 /\ s[2].k \in PayloadKinds /\ s[2].len = s[1].len /\ Whole(Tail(Tail(s)), w)
+         THEN IF Len(s) = 1 THEN tail
+              ELSE s[2].k \in PayloadKinds /\ s[2].len = s[1].len /\ WholeT(Tail(Tail(s)), w, tail)
+  ELSE IF s[1].k = "piece"
+         THEN LET n == s[1].of
+                  m == Min(n, Len(s))
+              IN /\ s[1].uk \in SelfKinds(w) /\ s[1].i = 1
+                 /\ \A j \in 1..m : /\ s[j].k = "piece" /\ s[j].i = j /\ s[j].of = n
+                                     /\ s[j].id = s[1].id /\ s[j].len = s[1].len
+                 /\ IF Len(s) < n THEN tail ELSE WholeT(SubSeq(s, n + 1, Len(s)), w, tail)
   ELSE FALSE
-TrailingHeader(s, w) == w /\ s # <<>> /\ s[Len(s)].k = "wsh" /\ Whole(SubSeq(s, 1, Len(s) - 1), w)
+Whole(s, w) == WholeT(s, w, FALSE)
 \* a connection that was cut may end inside a unit; one that is still served may not
-FramingOk(cs, w) == IF cs.closed THEN Whole(cs.wire, w) \/ TrailingHeader(cs.wire, w)
+FramingOk(cs, w) == IF cs.closed THEN WholeT(cs.wire, w, TRUE)
                     ELSE Whole(cs.wire \o cs.fl \o cs.q, w)
 HasBytes(s) == \E i \in 1..Len(s) : s[i].k # "empty"
 RECURSIVE IsSubSeq(_, _)
 IsSubSeq(a, b) == IF a = <<>> THEN TRUE ELSE IF b = <<>> THEN FALSE
                   ELSE IF a[1] = b[1] THEN IsSubSeq(Tail(a), Tail(b)) ELSE IsSubSeq(a, Tail(b))
 RECURSIVE IdsOf(_)
-IdsOf(s) == IF s = <<>> THEN <<>> ELSE (IF s[1].id # 0 THEN <<s[1].id>> ELSE <<>>) \o IdsOf(Tail(s))
+IdsOf(s) == IF s = <<>> THEN <<>>     \* the units present completely (a unit in pieces counts with its last piece)
+            ELSE (IF s[1].id # 0 /\ (s[1].k # "piece" \/ s[1].i = s[1].of) THEN <<s[1].id>> ELSE <<>>) \o IdsOf(Tail(s))
 
 ---------------------------------------------------------------------------
 (* Per-connection operators.                                                                        *)
@@ -103,8 +114,9 @@ SweepC(cs) == IF cs.closed THEN cs
 
 ---------------------------------------------------------------------------
 (* The units of publish number n in the model-checking configurations.                              *)
-Burst(n) == IF Parts = 1 THEN <<[k |-> IF WsMode THEN "wsf" ELSE "msg", id |-> n, len |-> n]>>
-            ELSE <<[k |-> "wsh", id |-> 0, len |-> n], [k |-> "tag", id |-> n, len |-> n]>>
+Part(k, id, len) == [k |-> k, uk |-> k, id |-> id, len |-> len, i |-> 0, of |-> 0]
+Burst(n) == IF Parts = 1 THEN <<Part(IF WsMode THEN "wsf" ELSE "msg", n, n)>>
+            ELSE <<Part("wsh", 0, n), Part("tag", n, n)>>
 
 Init == /\ con = [c \in All |-> ConsInit]
         /\ cap = [c \in All |-> IF c \in Healthy THEN HCap ELSE N]
